@@ -122,3 +122,13 @@ def run(ctx, rep):
             inloop = any(bb in bl for h, bl in natural_loops(b_))
         rep.ob('R14.e', ST, '%s.message_expiry updated' % label, ok and inloop, '%s:%s' % (sites[0][0].file, sites[0][2]) if sites else None,
                'resolved expiry stored%s' % ('' if label == 'topic' else ' for every ' + label) if ok and inloop else 'an expiry update does not reach the %s%s' % (label, '' if ok else ' (or stores a different value)'))
+
+    # ------------------------------------------------------------ R14.g the expiry reaches every level unchanged
+    rep.rule('R14.g', 'constructors: the message expiry a topic resolved is the one its partitions and segments store', floor=5, analysis='A9')
+    from props import storage_forms as sf_
+    sf_.check_constructors(ctx, rep, 'R14.g', {'Topic': ('message_expiry',), 'Partition': ('message_expiry',), 'Segment': ('message_expiry', 'is_closed', 'end_offset')})
+
+    # ------------------------------------------------------------ R14.h the topic's expiry, not the server default, goes down the hierarchy
+    rep.rule('R14.h', 'the message expiry handed down a call chain (handler, System, Stream, Topic, Partition, Segment, loaders) is at every hop the caller\'s own expiry: the parameter or the field of that name of the entity at hand, or that value resolved by Topic::get_message_expiry; the server-wide default enters only inside the resolver', floor=13, analysis='A9')
+    sf_.settings_passthrough(ctx, rep, 'R14.h', ('message_expiry',))
+
